@@ -457,8 +457,42 @@ class State:
             init = self.ex.init_heap
             if key not in init:
                 init[key] = z3.Const("H0_" + key, z3.ArraySort(I, sort))
-            self.heap[key] = init[key]
+            arr = init[key]
+            # heap fields come into existence when first used: a frame havoc that named a whole family of fields
+            # (`obj.*`, `Dict.map`, `heap`, fields of objects a callee allocated) before this one existed applies to it too.
+            # The result is a function of (field, havoc history): every copy of the state sees the same array.
+            cache = self.ex.__dict__.setdefault("lazy_field_cache", {})
+            hist = []
+            for ev in self.ghost.get("__havocs__", ()):
+                if not key.startswith(ev[1]):
+                    continue
+                hist.append(ev[3])
+                ck = (key, tuple(hist))
+                if ck in cache:
+                    arr, facts = cache[ck]
+                else:
+                    facts = []
+                    if ev[0] == "all":
+                        arr = fresh("hv_" + key, arr.sort())
+                    elif ev[0] == "at":
+                        arr = z3.Store(arr, ev[2], fresh("hv_" + key.rsplit(".", 1)[-1], arr.sort().range()))
+                    elif ev[0] == "fresh":
+                        new = fresh("wf_" + key.rsplit(".", 1)[-1], arr.sort())
+                        r = fresh("r", I)
+                        facts.append(z3.ForAll([r], z3.Implies(r < ev[2], z3.Select(new, r) == z3.Select(arr, r)),
+                                               patterns=[z3.Select(new, r)]))
+                        arr = new
+                    cache[ck] = (arr, facts)
+                for f in facts:
+                    self.assume_unguarded(f)
+            self.heap[key] = arr
         return self.heap[key]
+
+    def note_havoc(self, kind, prefix, arg=None):
+        self.ghost = dict(self.ghost)
+        serial = self.ex.__dict__.setdefault("havoc_serial", [0])
+        serial[0] += 1
+        self.ghost["__havocs__"] = tuple(self.ghost.get("__havocs__", ())) + ((kind, prefix, arg, serial[0]),)
 
     def write(self, key, sort, ref, val):
         arr = self.field(key, sort)
